@@ -291,6 +291,28 @@ Definition cell4 {A} (out : list (list (chan A))) (e c i j : nat) : option A :=
   | None => None
   end.
 
+(* ---- one cell of generate_pafs, computed directly (large images: the harness compares a
+   SAMPLE of cells, so that vm_compute does not build the whole (E,2,h,w) field).
+   q = (edge e, component c, row i, column j); None = outside the output's shape.
+   Wide.sample_cell_spec / Props.c05_sampled_cell_is_cell_of_field: on `in_domain` this IS
+   cell (e,c,i,j) of generate_pafs and cell (2e+c,i,j) of generate_pafs_flat.
+   The model is EXACT (rationals) at any magnitude; float32 rounding of the code is not
+   modelled, it is bounded in the harness (c05.py: `eps_pos`), see notes/C05.md. *)
+Definition sample_cell (fl fb : bool) (samples : list (list (list kp))) (H W : nat) (sig : Q) (s : nat)
+  (edges : list (nat * nat)) (q : nat * nat * nat * nat) : option pcell :=
+  let '(e, c, i, j) := q in
+  match nth_error edges e with
+  | Some (a, b) =>
+      if ((c <? 2) && (i * s <? H) && (j * s <? W))%nat
+      then Some (flat_map (fun inst =>
+                   let pc := paf_cell fl sig (node inst a) (node inst b) (nat_Q (j * s)) (nat_Q (i * s)) in
+                   match (match c with O => fst pc | _ => snd pc end) with
+                   | Some t => [t] | None => [] end)
+                 (filter (in_img fb H W (grid W s) (grid H s)) (hd [] samples)))
+      else None
+  | None => None
+  end.
+
 (* ---- entry point for the correspondence harness: results as JSON trees ---- *)
 Inductive tree := TQ (q : Q) | TNull | TB (b : bool) | TList (l : list tree).
 
@@ -326,7 +348,9 @@ Inductive case :=
         (edges : list (nat * nat))
 | CGenChk (fl fixed_box : bool) (samples : list (list (list kp))) (H W : nat) (sig : Q) (s : nat)
           (edges : list (nat * nat))
-| CSel (H W s : nat) (insts : list (list kp)) (edges : list (nat * nat)).
+| CSel (H W s : nat) (insts : list (list kp)) (edges : list (nat * nat))
+| CGenAt (fl fixed_box : bool) (samples : list (list (list kp))) (H W : nat) (sig : Q) (s : nat)
+         (edges : list (nat * nat)) (cells : list (nat * nat * nat * nat)).
 
 Definition sel_F1_kp (s d : kp) : bool :=
   match s, d with Some s', Some d' => selector_F1 false s' d' | _, _ => false end.
@@ -351,4 +375,8 @@ Definition run (c : case) : tree :=
       tl_ (fun inst => TList [TB (selector_strict_box H W s inst);
                               tl_ (fun e => TB (sel_F1_kp (node inst (fst e)) (node inst (snd e)))) edges])
           insts
+  | CGenAt fl fb smp H W sig s edges cells =>
+      if in_domain fb smp H W s edges
+      then tl_ (topt (tl_ tterm)) (map (sample_cell fl fb smp H W sig s edges) cells)
+      else TNull
   end.
